@@ -84,6 +84,28 @@ def wrote(op, p, x):
     return vals[-1] if vals else None
 
 
+def response_to(f, p, i):
+    """the HTTP response written to #p during op i (None if there is none)"""
+    for e in f.log.get(p, []):
+        if e[1] == "resp" and e[-1] == i:
+            return e
+    return None
+
+
+def acked(f, p, i, x) -> bool:
+    """the write of characteristic x in the PUT of op i was acknowledged to #p: 204, or status 0 for x in
+    a 207 Multi-Status answer"""
+    e = response_to(f, p, i)
+    if e is None:
+        return False
+    if e[2] == 204:
+        return True
+    if e[2] == 207 and isinstance(e[3], dict) and "chars" in e[3]:
+        st = [c[2] for c in e[3]["chars"] if c[0] == x]
+        return bool(st) and st[-1] == 0
+    return False
+
+
 def reuse_ok(ops) -> bool:
     """the address-reuse hypothesis holds on this script"""
     addr, lost, stopped = [], set(), False
@@ -232,11 +254,20 @@ def changes_of(f: Facts):
         if pq is None or pq[0] not in f.log:
             continue
         p = pq[0]
-        if not any(e[1] == "resp" and e[-1] == i and e[2] == 204 for e in f.log[p]):
-            continue  # not acknowledged (unverified, closed connection, ...)
+        if response_to(f, p, i) is None:
+            continue  # not answered (closed connection, ...)
         cur = dict(enumerate(before)) if before is not None else {}
         for x, _ev, v in pq[1]:  # the value members, in request order
             if v is None:
+                continue
+            if not acked(f, p, i, x):
+                # refused (401) or failed (-70402): not an acknowledged write. If the public value of the
+                # characteristic nevertheless became the written value, the controller DID change it
+                # (sixth field: True)
+                after = f.dig[i]["values"][x]
+                if x not in f.nul and after == v and cur.get(x) != v:
+                    res.append((i, x, v, p, False, True))
+                    cur[x] = v
                 continue
             if x in f.nul or cur.get(x) != v:
                 res.append((i, x, v, p, False))
@@ -268,6 +299,7 @@ def worker_overtaken(chg, x, learned, src, p=None) -> bool:
 
 
 WORKER_SIG = "C12:worker-change-overtaken-by-newer-change"
+FAILED_WRITE_SIG = "C12:failed-write-changed-value-unannounced"
 
 
 def oracle_c12(f: Facts) -> List[Tuple[str, str]]:
@@ -325,7 +357,11 @@ def oracle_c12(f: Facts) -> List[Tuple[str, str]]:
                 cur = d["values"][x]
                 if learned != cur:
                     sig = "C12:quiescent-learned-differs"
-                    if worker_overtaken(chg, x, learned, src, p):
+                    if len(last_changes[-1]) > 5 and last_changes[-1][5] and last_changes[-1][2] == cur:
+                        # the current value was stored by a write that was answered with an error status
+                        # and that nobody was told about
+                        sig = FAILED_WRITE_SIG
+                    elif worker_overtaken(chg, x, learned, src, p):
                         sig = WORKER_SIG
                     elif src is not None and src[0] == "event":
                         # an event that arrived after a later own acknowledged write of another value
@@ -358,7 +394,7 @@ def oracle_c12(f: Facts) -> List[Tuple[str, str]]:
                 cur = d["values"][x]
                 if src is None or learned == cur:
                     continue
-                if any(s_[0].startswith("C12:originator-stale") or s_[0] in ("C12:quiescent-learned-differs", WORKER_SIG) for s_ in bad):
+                if any(s_[0].startswith("C12:originator-stale") or s_[0] in ("C12:quiescent-learned-differs", WORKER_SIG, FAILED_WRITE_SIG) for s_ in bad):
                     continue  # already reported under the first form
                 sig = "C12:stale-value-learned-after-subscription"
                 if worker_overtaken(chg, x, learned, src, p):
@@ -391,8 +427,8 @@ def learned_value(f: Facts, p: int, x: int, upto: int, after: int = -1):
             for ex, ev in e[2]:
                 if ex == x:
                     val, src = ev, ("event", e[-1])
-        elif e[1] == "resp" and e[2] == 204:
+        elif e[1] == "resp" and e[2] in (204, 207):
             w = wrote(f.ops[e[-1]], p, x)
-            if w is not None:
+            if w is not None and acked(f, p, e[-1], x):
                 val, src = w, ("own-write", e[-1])
     return val, src
